@@ -71,6 +71,9 @@ fn life_jobs(props: &[&'static str], thorough: bool, read_faults: bool) -> Vec<J
         v.push(w(rf(c), props, 3, true));
     }
     v.push(w(rf(scen::s_overlap()), props, if thorough { 3 } else { 2 }, true));
+    v.push(w(rf(scen::s_life_xpay()), props, if thorough { 3 } else { 2 }, true));
+    v.push(w(rf(scen::s_life_amountless()), props, if thorough { 3 } else { 2 }, true));
+    v.push(w(rf(scen::s_hist_two_pending(0)), props, if thorough { 3 } else { 2 }, false));
     for k in HIST_KINDS {
         for age in if thorough { vec![0u64, 59, 61, 1_000_000] } else { vec![0u64, 61] } {
             for two in [false, true] {
